@@ -317,4 +317,114 @@ theorem w6d_step_simple_newText (S1 S2 : List SegX) (F : List Tok)
   simp only [DocItem.simple, List.all_append, List.all_cons, Bool.and_eq_true] at h ⊢
   exact ⟨h.1, by simp [SegX.simple], h.2⟩
 
+/-! ### the document -/
+
+variable {α : Type} [Arith α]
+
+/-- **`DocWF` of the transformed document, filler inside a text run of one step**: every field of
+    `DocWF` that speaks of blocks, segments, follow-conditions, separators is DERIVED from the
+    original's `DocWF` and `IsFiller F`.  Still asked of the transformed text: its spelling
+    (`C17_well_spelled_insertion` reduces it to the filler and its two neighbours), no front-matter
+    fence, and — only under INLINE_QUANTITIES — that the inline-quantity scan finds nothing in the
+    changed run. -/
+theorem w6d_docWF_inText (env : Env) (pre : List Tok) (D1 D2 : List (DocItem × List Tok)) (sep : List Tok)
+    (S1 S2 : List SegX) (l1 F l2 : List Tok) (hF : IsFiller F)
+    (h : DocWF α env pre (D1 ++ (DocItem.step (S1 ++ SegX.text (l1 ++ l2) :: S2), sep) :: D2))
+    (hext : (SegX.text (l1 ++ F ++ l2)).extOK α env)
+    (hw : WellSpelled env.cs (pre ++ docSpec (D1 ++ (DocItem.step (S1 ++ SegX.text (l1 ++ F ++ l2) :: S2), sep) :: D2)))
+    (hfm : parseFrontmatter env.cs
+      (render (pre ++ docSpec (D1 ++ (DocItem.step (S1 ++ SegX.text (l1 ++ F ++ l2) :: S2), sep) :: D2))) = none) :
+    DocWF α env pre (D1 ++ (DocItem.step (S1 ++ SegX.text (l1 ++ F ++ l2) :: S2), sep) :: D2) := by
+  have hmem : ∀ d ∈ D1 ++ (DocItem.step (S1 ++ SegX.text (l1 ++ F ++ l2) :: S2), sep) :: D2,
+      d ∈ D1 ++ (DocItem.step (S1 ++ SegX.text (l1 ++ l2) :: S2), sep) :: D2 ∨
+      d = (DocItem.step (S1 ++ SegX.text (l1 ++ F ++ l2) :: S2), sep) := by
+    intro d hd
+    simp only [List.mem_append, List.mem_cons] at hd ⊢
+    rcases hd with hd | hd | hd
+    · exact Or.inl (Or.inl hd)
+    · exact Or.inr hd
+    · exact Or.inl (Or.inr (Or.inr hd))
+  have hin : (DocItem.step (S1 ++ SegX.text (l1 ++ l2) :: S2), sep) ∈
+      D1 ++ (DocItem.step (S1 ++ SegX.text (l1 ++ l2) :: S2), sep) :: D2 := by simp
+  refine ⟨h.hpre, ?_, ?_, ?_, ?_, ?_, hw, hfm⟩
+  · intro d hd
+    rcases hmem d hd with hd | rfl
+    · exact h.ok d hd
+    · exact w6d_step_ok_inText env.cs env.ext S1 S2 l1 F l2 hF (h.ok _ hin)
+  · intro d hd
+    rcases hmem d hd with hd | rfl
+    · exact h.simple d hd
+    · exact w6d_step_simple_inText S1 S2 _ _ (h.simple _ hin)
+  · intro d hd
+    rcases hmem d hd with hd | rfl
+    · exact h.plain d hd
+    · trivial
+  · intro d hd
+    rcases hmem d hd with hd | rfl
+    · exact h.ext d hd
+    · intro sg hsg
+      have h0 := h.ext _ hin
+      simp only [List.mem_append, List.mem_cons] at hsg
+      rcases hsg with hsg | rfl | hsg
+      · exact h0 sg (by simp [hsg])
+      · exact hext
+      · exact h0 sg (by simp [hsg])
+  · have : (D1 ++ (DocItem.step (S1 ++ SegX.text (l1 ++ F ++ l2) :: S2), sep) :: D2).map (·.2) =
+        (D1 ++ (DocItem.step (S1 ++ SegX.text (l1 ++ l2) :: S2), sep) :: D2).map (·.2) := by simp
+    rw [this]; exact h.seps
+
+/-- the same for filler as a text run of its own (behind a component / at the start of the step,
+    in front of a component / at the end of the step) -/
+theorem w6d_docWF_newText (env : Env) (pre : List Tok) (D1 D2 : List (DocItem × List Tok)) (sep : List Tok)
+    (S1 S2 : List SegX) (F : List Tok) (hF : IsFiller F) (hvis : F.flatMap vis ≠ [])
+    (hS2 : ∀ s, S2.head? = some s → s.isText = false) (hS1 : ∀ s, S1.getLast? = some s → s.isText = false)
+    (h : DocWF α env pre (D1 ++ (DocItem.step (S1 ++ S2), sep) :: D2))
+    (hext : (SegX.text F).extOK α env)
+    (hw : WellSpelled env.cs (pre ++ docSpec (D1 ++ (DocItem.step (S1 ++ SegX.text F :: S2), sep) :: D2)))
+    (hfm : parseFrontmatter env.cs
+      (render (pre ++ docSpec (D1 ++ (DocItem.step (S1 ++ SegX.text F :: S2), sep) :: D2))) = none) :
+    DocWF α env pre (D1 ++ (DocItem.step (S1 ++ SegX.text F :: S2), sep) :: D2) := by
+  have hmem : ∀ d ∈ D1 ++ (DocItem.step (S1 ++ SegX.text F :: S2), sep) :: D2,
+      d ∈ D1 ++ (DocItem.step (S1 ++ S2), sep) :: D2 ∨ d = (DocItem.step (S1 ++ SegX.text F :: S2), sep) := by
+    intro d hd
+    simp only [List.mem_append, List.mem_cons] at hd ⊢
+    rcases hd with hd | hd | hd
+    · exact Or.inl (Or.inl hd)
+    · exact Or.inr hd
+    · exact Or.inl (Or.inr (Or.inr hd))
+  have hin : (DocItem.step (S1 ++ S2), sep) ∈ D1 ++ (DocItem.step (S1 ++ S2), sep) :: D2 := by simp
+  refine ⟨h.hpre, ?_, ?_, ?_, ?_, ?_, hw, hfm⟩
+  · intro d hd
+    rcases hmem d hd with hd | rfl
+    · exact h.ok d hd
+    · exact w6d_step_ok_newText env.cs env.ext S1 S2 F hF hvis hS2 hS1 (h.ok _ hin)
+  · intro d hd
+    rcases hmem d hd with hd | rfl
+    · exact h.simple d hd
+    · exact w6d_step_simple_newText S1 S2 F (h.simple _ hin)
+  · intro d hd
+    rcases hmem d hd with hd | rfl
+    · exact h.plain d hd
+    · trivial
+  · intro d hd
+    rcases hmem d hd with hd | rfl
+    · exact h.ext d hd
+    · intro sg hsg
+      have h0 := h.ext _ hin
+      simp only [List.mem_append, List.mem_cons] at hsg
+      rcases hsg with hsg | rfl | hsg
+      · exact h0 sg (by simp [hsg])
+      · exact hext
+      · exact h0 sg (by simp [hsg])
+  · have : (D1 ++ (DocItem.step (S1 ++ SegX.text F :: S2), sep) :: D2).map (·.2) =
+        (D1 ++ (DocItem.step (S1 ++ S2), sep) :: D2).map (·.2) := by simp
+    rw [this]; exact h.seps
+
+/-- without INLINE_QUANTITIES the condition on the inline-quantity scan is void -/
+theorem w6d_text_extOK_off (env : Env) (hoff : env.ext.has Gen.EXT_INLINE_QUANTITIES = false) (l : List Tok) :
+    (SegX.text l).extOK α env := by
+  intro hon
+  rw [hoff] at hon
+  cases hon
+
 end Cook
